@@ -26,8 +26,12 @@ def run_check(prop: str, tier: str, repo_root: str) -> int:
         run = Run(prop, tier, repo.root, getattr(mod, "EXPLANATION", ""))
         run.analysed = dict(repo.units())
         mod.check(repo, run)
-        if tier == "thorough" and hasattr(mod, "thorough"):
-            mod.thorough(repo, run)
+        if tier == "thorough":
+            if hasattr(mod, "thorough"):
+                mod.thorough(repo, run)
+            from . import selftest
+            if selftest.load(prop):
+                selftest.attach(run, repo)
         return run.finish(seed)
     except AnalysisError as e:
         print(f"ANALYSIS-ERROR property={prop}: {e}")
